@@ -239,13 +239,34 @@ func TestC12(t *testing.T) {
 		}
 		methods = append(methods, string(b))
 	}
+	// every placement of slashes in strings of length <= 4 over {a, /} (31 strings: no slash, only a leading one, only a
+	// trailing one, doubled, ...)
+	slashy := svSlashStrings(4)
+	methods = append(methods, slashy...)
+	// the parser is called by the owning shard only, inside the case's markers, and a panic of the parser is a case of
+	// its own (the read loop calls it with nothing recovering: reason 7) - it must not take the other families with it
+	safeParse := func(m string) (svc, meth string, err error, pan any) {
+		defer func() { pan = recover() }()
+		svc, meth, err = goat.VerifParseRawMethod(m)
+		return
+	}
 	for _, m := range methods {
-		svc, meth, err := goat.VerifParseRawMethod(m)
-		r := "None"
-		if err == nil {
-			r = fmt.Sprintf("(Some (%s, %s))", coqStr(svc), coqStr(meth))
+		if want(idx) {
+			em.Marker("begin", idx)
+			svc, meth, err, pan := safeParse(m)
+			if pan != nil {
+				em.Emit(Rec{Idx: idx, Kind: "method", Desc: map[string]any{"method": m, "panic": fmt.Sprint(pan)}, Coq: "C12Dead false",
+					Tags: []string{"method-parse", "method-parse-panic"}})
+			} else {
+				r := "None"
+				if err == nil {
+					r = fmt.Sprintf("(Some (%s, %s))", coqStr(svc), coqStr(meth))
+				}
+				em.Emit(Rec{Idx: idx, Kind: "method", Desc: m, Coq: fmt.Sprintf("C12Method %s %s", coqStr(m), r), Tags: []string{"method-parse"}})
+			}
+			em.Marker("end", idx)
 		}
-		emitPlain("method", m, fmt.Sprintf("C12Method %s %s", coqStr(m), r), "method-parse")
+		idx++
 		emitPlain("shape", m, fmt.Sprintf("C12Shape %s %s", coqStr(m), svMethodKind(m)), "method-kind:"+strings.Trim(strings.Fields(svMethodKind(m))[0], "()"))
 	}
 
@@ -284,6 +305,28 @@ func TestC12(t *testing.T) {
 		}
 		frames = append(frames, svProbe(901))
 		run("seq", frames, tags)
+	}
+
+	// ---- garbage method strings on the wire: every placement of slashes in strings of length <= 4 over {a, /}, and the
+	// registered names cut at their slashes ("/Unary", "/verif.Echo", "verif.Echo/", ...), as a unary-looking request
+	// (with body) and as a stream-looking opener, alone and behind an open stream; then the probe
+	wireMethods := append(append([]string{}, slashy...), "/Unary", "/Bidi", "/verif.Echo", "verif.Echo/", "/verif.Echo/", "verif.Echo", "Unary",
+		"//Unary", "/verif.Echo//", "///", "////", "/.", "./", "/ ", " /")
+	for _, m := range wireMethods {
+		for _, body := range []bool{true, false} {
+			for _, behind := range []bool{false, true} {
+				var frames []*FrameSpec
+				if behind {
+					frames = append(frames, &FrameSpec{Id: 1, Hdr: "ok:0", Method: mBidi, Src: "src", Dst: "dst"})
+				}
+				f := &FrameSpec{Id: 5, Hdr: "ok:0", Method: m, Src: "src", Dst: "dst"}
+				if body {
+					f.Body = i64(840)
+				}
+				frames = append(frames, f, svProbe(912))
+				run("wiremethod", frames, []string{"wire-method", fmt.Sprintf("slashes=%d", strings.Count(m, "/")), fmt.Sprintf("body=%v", body), fmt.Sprintf("behind=%v", behind)})
+			}
+		}
 	}
 
 	// ---- "-bin" request metadata: values of every length mod 4 (0..9 characters), valid and invalid alphabet, padded and
@@ -578,4 +621,19 @@ func TestC12(t *testing.T) {
 		frames = append(frames, svProbe(903))
 		run("mutation", frames, tags)
 	}
+}
+
+// svSlashStrings: every string of length 0..n over {a, /}
+func svSlashStrings(n int) []string {
+	out := []string{""}
+	prev := []string{""}
+	for l := 1; l <= n; l++ {
+		var cur []string
+		for _, p := range prev {
+			cur = append(cur, p+"a", p+"/")
+		}
+		out = append(out, cur...)
+		prev = cur
+	}
+	return out
 }
